@@ -31,6 +31,11 @@ class RecGauss(random.Random):
         self.draws.append(x)
         return x
 
+    def choices(self, population, weights=None, *, cum_weights=None, k=1):
+        r = super().choices(population, weights=weights, cum_weights=cum_weights, k=k)
+        self.choice_log.append((list(population), None if weights is None else list(weights), list(r)))
+        return r
+
 
 def mk_world(rng, n_markets, tick=0.01, index=False, equal_shares=True):
     sim = Simulator(prng=random.Random(rng.randint(0, 10 ** 9)))
@@ -58,7 +63,7 @@ def trade(m, price, agent=90):
         warnings.simplefilter("ignore")
         m._add_order(Order(agent_id=agent, market_id=m.market_id, is_buy=False, kind=LIMIT_ORDER, volume=1, price=price))
         m._add_order(Order(agent_id=agent, market_id=m.market_id, is_buy=True, kind=LIMIT_ORDER, volume=1, price=price))
-        m._execution()
+        return m._execution()
 
 
 def well_formed(orders, agent, accessible, inp, out):
@@ -188,6 +193,56 @@ def run_C20(ctx, model_available=True):
             well_formed(os_, b, {0, 1}, inp, violations)
             if len({o.market_id for o in os_}) > 1:
                 add_v(viol("C20/marketshare-fcn-several-markets", "a market-share FCN agent acts on exactly one chosen accessible market", {"markets": [o.market_id for o in os_]}, inp))
+
+    # ---- market-share FCN: the market is drawn with weights = volume traded in the recent window -------
+    for i in range(60 * scale):
+        nm = rng.choice([2, 3])
+        sim, mks, _ = mk_world(rng, nm)
+        b = MarketShareFCNAgent(agent_id=8, prng=RecGauss(rng.randint(0, 10 ** 9)), simulator=sim, name="msfcn")
+        acc = sorted(rng.sample(range(nm), rng.randint(1, nm)))
+        for mid in acc:
+            b.set_market_accessible(mid)
+        b.fundamental_weight, b.chart_weight, b.noise_weight = 1.0, rng.choice([0.0, 1.0]), 1.0
+        b.noise_scale = 0.001
+        b.time_window_size = rng.choice([1, 2, 3, 5, 8, 100])
+        b.mean_reversion_time = 50
+        b.order_margin = 0.01
+        b.margin_type = 0
+        b.is_chart_following = True
+        # trades early and late; the clock ends before, inside (also in its second half) or beyond the window
+        w = b.time_window_size
+        T = rng.choice([0, 1, w // 2, (w // 2 + w) // 2 if w < 50 else rng.randint(50, 99), max(w - 1, 0), w, w + 1, 2 * w + 1] if w < 50
+                       else [0, 3, 49, 50, 51, 75, 99, 100, 101, 130])
+        vols = {m.market_id: [0] * (T + 1) for m in mks}
+        for t in range(T + 1):
+            for m in mks:
+                if rng.random() < (0.7 if t <= 2 else 0.25):
+                    for _ in range(rng.randint(1, 3)):
+                        # the volume that really traded (a price that is off the grid in doubles is snapped apart)
+                        fills = trade(m, round(m.get_market_price() * math.exp(rng.gauss(0, 0.002)), 2))
+                        vols[m.market_id][t] += sum(f.volume for f in fills)
+            if t < T:
+                for m in mks:
+                    m._update_time(next_fundamental_price=m.get_fundamental_price())
+        inp = {"kind": "msfcn", "window": w, "time": T, "accessible": acc, "traded_volume_per_step": {str(k): v for k, v in vols.items()}}
+        os_ = b.submit_orders(markets=sim.markets)
+        dist["share_fcn"] += 1
+        checks += 1
+        seen.add(digest(inp))
+        nontriv.add(digest(inp))
+        well_formed(os_, b, set(acc), inp, violations)
+        log = b.prng.choice_log
+        want_w = [float(sum(vols[mid][max(0, T - w): T + 1])) + 1e-10 for mid in acc]
+        if len(log) != 1 or [m.market_id for m in log[0][0]] != acc:
+            add_v(viol("C20/marketshare-fcn-choice-not-over-accessible-markets", "the market is chosen among the accessible markets",
+                       {"choices": [[m.market_id for m in c[0]] for c in log]}, inp))
+        elif log[0][1] != want_w:
+            add_v(viol("C20/marketshare-fcn-weights-not-recent-volume",
+                       "the market is chosen by the volume traded on it in the last `timeWindowSize` steps (up to now)",
+                       {"weights": log[0][1], "expected": want_w}, inp))
+        elif any(o.market_id != log[0][2][0].market_id for o in os_):
+            add_v(viol("C20/marketshare-fcn-order-not-on-chosen-market", "FCN order on the chosen market only",
+                       {"chosen": log[0][2][0].market_id, "orders": [o.market_id for o in os_]}, inp))
 
     # ---- market maker -----------------------------------------------------------------------
     for i in range(200 * scale):
